@@ -126,6 +126,9 @@ func main() {
 		}
 	}
 	var todo []*Contract
+	for _, ti := range eng.typeInvs {
+		res.Trusted = append(res.Trusted, "type invariant (assumed) "+ti.Global+"#"+ti.Cl.Name+": "+ti.Cl.Src)
+	}
 	for _, ct := range eng.contracts {
 		key := ct.FuncKey
 		if ct.Variant != "" {
